@@ -165,8 +165,31 @@ func genScenario(t *rapid.T) Scenario {
 	for i := 0; i < n; i++ {
 		var b Block
 		ntx := pick(t, "ntx", 5)
+		if pick(t, "bigblock", 12) == 0 {
+			// a large block (execution layers stage and flush in chunks): hundreds of valid transactions
+			// and, in half of the cases, a malformed / reserved one late in the block
+			nbig := []int{33, 130, 257, 300, 600, 1100}[pick(t, "nbig", 6)]
+			for j := 0; j < nbig; j++ {
+				b.Txs = append(b.Txs, []byte(fmt.Sprintf("big%d/k%04d=v%d", i, j, j)))
+			}
+			if rapid.Bool().Draw(t, "bigbad") {
+				pos := nbig - 1 - pick(t, "badfromend", 40)
+				if pos < 0 {
+					pos = 0
+				}
+				bad := genTx(t)
+				b.Txs = append(b.Txs[:pos], append([][]byte{bad}, b.Txs[pos:]...)...)
+			}
+			ntx = 0
+			if len(b.Txs) == 0 {
+				ntx = 0
+			}
+		}
 		for j := 0; j < ntx; j++ {
 			b.Txs = append(b.Txs, genTx(t))
+		}
+		if len(b.Txs) > 0 {
+			ntx = len(b.Txs)
 		}
 		if ntx == 0 {
 			b.NilTxs = rapid.Bool().Draw(t, "niltxs")
